@@ -387,7 +387,7 @@ func checkOracleTuple(b *base, t tuple, tally *engine.Tally) {
 }
 
 func sigConfigs(quick bool) []tsssig.Cfg {
-	ev := []string{"req", "reqlow", "reqnolimit", "reqotherdenom", "reqgov", "reqpoor", "oreq", "oreqlow", "feechg", "sig", "block"}
+	ev := []string{"req", "reqlow", "reqnolimit", "reqotherdenom", "reqgov", "reqpoor", "oreq", "oreqlow", "oreqmany", "feechg", "sig", "block"}
 	if quick {
 		return []tsssig.Cfg{
 			{N: 3, T: 2, SigningPeriod: 1, MaxSigningAttempt: 2, MaxDESize: 6, InitDE: 4, MaxReq: 2, Depth: 7, Events: ev, FeePerSigner: 10},
